@@ -201,6 +201,36 @@ class LIST(Kind):
     def __repr__(self): return f"LIST({self.elem})"
 
 
+@dataclass(frozen=True)
+class DICT(Kind):
+    """a Python dict that the verified code only READS (subscript, `in`, keys / values / items, len, iteration): one reference; contents through the
+    uninterpreted functions of dict_fns (per key / value kind): has, get, and the insertion-ordered key and value tables"""
+    key: Kind
+    val: Kind
+
+    def cols(self): return [('', Ref)]
+    def from_cols(self, t): return VDict(t[0], self.key, self.val)
+    def __repr__(self): return f"DICT({self.key}, {self.val})"
+
+
+_dict_fns = {}
+
+
+def dict_fns(key: Kind, val: Kind):
+    """(has, [get per value column], n, [key table per key column], [value table per value column]) for dicts of this shape"""
+    sig = f"{key}->{val}"
+    if sig not in _dict_fns:
+        ks = [srt for _, srt in key.cols()]
+        has = z3.Function(f"dict_has<{sig}>", Ref, *ks, z3.BoolSort())
+        get = [z3.Function(f"dict_get<{sig}>{sfx}", Ref, *ks, srt) for sfx, srt in val.cols()]
+        n = z3.Function(f"dict_len<{sig}>", Ref, z3.IntSort())
+        keys = [z3.Function(f"dict_keys<{sig}>{sfx}", Ref, z3.ArraySort(z3.IntSort(), srt)) for sfx, srt in key.cols()]
+        vals = [z3.Function(f"dict_vals<{sig}>{sfx}", Ref, z3.ArraySort(z3.IntSort(), srt)) for sfx, srt in val.cols()]
+        idx = z3.Function(f"dict_idx<{sig}>", Ref, *ks, z3.IntSort())
+        _dict_fns[sig] = (has, get, n, keys, vals, idx)
+    return _dict_fns[sig]
+
+
 # -------------------------------------------------------------------------------------------- values
 class V:
     kind: Kind
@@ -345,6 +375,47 @@ class VRecord(V):
 
     def get(self, name):
         return dict(self.items).get(name)
+
+
+@dataclass(frozen=True)
+class VDict(V):
+    """a read-only dict: identity t; see DICT"""
+    t: z3.ExprRef
+    key: Kind
+    val: Kind
+
+    @property
+    def kind(self): return DICT(self.key, self.val)
+
+    def cols(self): return [self.t]
+
+    @property
+    def fns(self): return dict_fns(self.key, self.val)
+
+    def has(self, k: V): return self.fns[0](self.t, *k.cols())
+    def get(self, k: V): return self.val.from_cols([g(self.t, *k.cols()) for g in self.fns[1]])
+    @property
+    def n(self): return self.fns[2](self.t)
+    def keys_list(self): return VList(self.key, tuple(f(self.t) for f in self.fns[3]), z3.IntVal(0), self.n)
+    def values_list(self): return VList(self.val, tuple(f(self.t) for f in self.fns[4]), z3.IntVal(0), self.n)
+    def idx(self, k: V): return self.fns[5](self.t, *k.cols())
+
+    def axioms(self):
+        """what a dict is: the tables list each key once with its value, in insertion order; has(k) exactly for the listed keys"""
+        j, j2 = z3.Int('dj'), z3.Int('dj2')
+        K, Vl = self.keys_list(), self.values_list()
+        kj, kj2 = K.at(j), K.at(j2)
+        same = z3.And(*[a == b for a, b in zip(kj.cols(), kj2.cols())])
+        gv = self.get(kj)
+        ax = [self.n >= 0,
+              z3.ForAll([j], z3.Implies(z3.And(0 <= j, j < self.n), z3.And(self.has(kj), self.idx(kj) == j, *[a == b for a, b in zip(gv.cols(), Vl.at(j).cols())])),
+                        patterns=[z3.Select(K.arrs[0], j)] + ([z3.Select(Vl.arrs[0], j)] if Vl.arrs else []))]
+        kv = [z3.Const(f'dk{i}', srt) for i, (_, srt) in enumerate(self.key.cols())]
+        kV = self.key.from_cols(kv)
+        at = K.at(self.idx(kV))
+        ax.append(z3.ForAll(kv, z3.Implies(self.has(kV), z3.And(0 <= self.idx(kV), self.idx(kV) < self.n, *[a == b for a, b in zip(at.cols(), kv)])),
+                            patterns=[self.has(kV)]))
+        return ax
 
 
 @dataclass(frozen=True)
